@@ -31,6 +31,24 @@ def parseOp (tok : String) : Option Op :=
     let all := m ≥ 8
     pure (Op.updateA id { owner := o, boss := some b, dep := d }
       (all || m % 2 = 1) (all || (m / 2) % 2 = 1) (all || (m / 4) % 2 = 1))
+  | ["cc", id, o, b, d, t] => do
+    let id ← Bytes.ofHex id
+    let o ← parseFV o
+    let b ← Bytes.ofHex b
+    let d ← parseFV d
+    let t ← parseFV t
+    pure (Op.createC id { owner := o, boss := some b, dep := d } t)
+  | ["uc", id, m, o, b, d, t] => do
+    let id ← Bytes.ofHex id
+    let m ← m.toNat?
+    let o ← parseFV o
+    let b ← Bytes.ofHex b
+    let d ← parseFV d
+    let t ← parseFV t
+    let all := (m / 8) % 2 = 1
+    pure (Op.updateC id { owner := o, boss := some b, dep := d } t
+      (all || m % 2 = 1) (all || (m / 2) % 2 = 1) (all || (m / 4) % 2 = 1) (all || (m / 16) % 2 = 1))
+  | ["dc", id] => (Bytes.ofHex id).map Op.deleteC
   | ["da", id] => (Bytes.ofHex id).map Op.deleteA
   | ["db", id] => (Bytes.ofHex id).map Op.deleteB
   | _ => none
